@@ -162,6 +162,9 @@ func (x *Exec) loopHeader(fr *Frame, h *ssa.BasicBlock, ord int, pre *Node, st *
 	mods := x.prog.loopMods(x, fr, h)
 	for _, m := range mods {
 		x.havocVar(cur, m)
+		if t, ok := x.vc.cellType[m]; ok {
+			x.assumeAllocated(hd, cur, Term{S: cur.vars[m].S, Sort: x.varSort(m), T: t})
+		}
 	}
 	if a, ok := cur.vars[allocVar]; ok {
 		// the allocation counter only grows
